@@ -162,12 +162,13 @@ type Sim struct {
 	GCMax        int64                    // at most this many forced GCs per run
 	MaxSwitchLog int
 
-	bat      baton
-	Switches []Switch
-	NSwitch  int64
-	Forced   int64  // forced GCs
-	Hash     uint64 // FNV-1a over (task, site) of every switch: the interleaving
-	LastRun  int
+	bat         baton
+	Switches    []Switch
+	NSwitch     int64
+	Forced      int64  // forced GCs
+	Hash        uint64 // FNV-1a over (task, site) of every switch: the interleaving
+	LastRun     int
+	LockDetours int64 // scheduling decisions overridden because the chosen task was waiting for a lock
 }
 
 // NewTask registers a task.
@@ -176,6 +177,9 @@ func (s *Sim) NewTask(stream *Stream, fn func(*Task)) *Task {
 	s.Tasks = append(s.Tasks, t)
 	return t
 }
+
+//go:norace
+func (t *Task) isBlocked() bool { return t.blocked }
 
 //go:norace
 func (t *Task) isDone() bool { return t.done }
@@ -270,6 +274,22 @@ func (s *Sim) Run() error {
 			idx, gap = s.Plan.Next(s, runnable)
 		}
 		t := s.Tasks[runnable[idx]]
+		if t.isBlocked() {
+			// The chosen task is waiting for a lock that a parked task holds:
+			// whatever the plan wanted, somebody who is not waiting must run
+			// first, or nobody ever makes progress.
+			for k := 1; k <= len(runnable); k++ {
+				o := s.Tasks[runnable[(idx+k)%len(runnable)]]
+				if !o.isBlocked() {
+					t = o
+					s.LockDetours++
+					if gap == Never || gap < 0 {
+						gap = 64
+					}
+					break
+				}
+			}
+		}
 		if gap < 0 {
 			t.armBoundary()
 		} else {
